@@ -44,7 +44,48 @@ func (fc *FnCtx) resolveCallee(c ssa.CallInstruction) *ssa.Function {
 	if mc := fc.resolveClosure(com.Value); mc != nil {
 		return mc.Fn.(*ssa.Function)
 	}
+	// call through a package-level function variable that is initialised once
+	// with a function and never reassigned (e.g. keepclient.SignLocator = arvados.SignLocator)
+	if ld, ok := com.Value.(*ssa.UnOp); ok && ld.Op == token.MUL {
+		if g, ok := ld.X.(*ssa.Global); ok {
+			if f := fc.eng.funcAlias(g); f != nil {
+				return f
+			}
+		}
+	}
 	return nil
+}
+
+var funcAliasMemo = map[*ssa.Global]*ssa.Function{}
+
+func (e *Engine) funcAlias(g *ssa.Global) *ssa.Function {
+	if f, ok := funcAliasMemo[g]; ok {
+		return f
+	}
+	funcAliasMemo[g] = nil
+	if e.assignedOutsideInit(g) {
+		return nil
+	}
+	init := g.Pkg.Func("init")
+	if init == nil {
+		return nil
+	}
+	var found *ssa.Function
+	n := 0
+	for _, b := range init.Blocks {
+		for _, in := range b.Instrs {
+			if st, ok := in.(*ssa.Store); ok && st.Addr == g {
+				n++
+				if f, ok := st.Val.(*ssa.Function); ok {
+					found = f
+				}
+			}
+		}
+	}
+	if n == 1 && found != nil {
+		funcAliasMemo[g] = found
+	}
+	return funcAliasMemo[g]
 }
 
 func (fc *FnCtx) resolveClosure(v ssa.Value) *ssa.MakeClosure {
@@ -426,7 +467,16 @@ func (fc *FnCtx) applyWriteSet(ws *WriteSet) {
 	if ws.All {
 		fc.havocHeap()
 	}
+	allocPre := fc.lookup("alloc")
 	for _, n := range ws.sorted() {
+		if ws.Fresh[n] && !ws.All {
+			if _, ok := fc.svSort[n]; ok && strings.HasPrefix(string(fc.svSort[n]), "(Array Int ") {
+				old := fc.lookup(n)
+				nw := fc.havoc(n)
+				fc.assume(T(SBool, "(forall ((a Int)) (! (=> (<= a %s) (= (select %s a) (select %s a))) :pattern ((select %s a))))", allocPre.S, nw.S, old.S, nw.S))
+				continue
+			}
+		}
 		if n == "alloc" {
 			old := fc.lookup("alloc")
 			nw := fc.havoc("alloc")
@@ -498,6 +548,18 @@ func (fc *FnCtx) applyContract(s *CallSite, ct *FuncContract, callee *ssa.Functi
 	ws.add("alloc")
 	if ct.HasMod {
 		fc.modifiesToWS(ct, ws)
+		if callee != nil && len(callee.Blocks) > 0 {
+			body := fc.funcWrites(callee, 0)
+			for _, n := range body.sorted() {
+				if !ws.Names[n] {
+					ws.add(n)
+					ws.Fresh[n] = true
+					if srt, ok := body.Sorts[n]; ok {
+						ws.Sorts[n] = srt
+					}
+				}
+			}
+		}
 	} else if ct.Flags["pure"] {
 	} else if callee != nil && len(callee.Blocks) > 0 {
 		ws.union(fc.funcWrites(callee, 0))
@@ -536,7 +598,10 @@ func (fc *FnCtx) applyContract(s *CallSite, ct *FuncContract, callee *ssa.Functi
 		if len(ghostNames) > 0 && mentions(r.E, ghostNames) {
 			continue // clauses over the callee's ghost state are internal to its proof
 		}
-		fc.assume(sc2.trBool(r.E))
+		// clauses that mention locals of the callee are internal as well
+		if t, ok := fc.tryTrBool(sc2, r.E); ok {
+			fc.assume(t)
+		}
 	}
 	if ct.Flags["pure"] && callee == nil {
 		// assumed pure interface method / external function: deterministic in its arguments
@@ -873,6 +938,9 @@ func (fc *FnCtx) doReturn(x *ssa.Return) {
 	for _, r := range x.Results {
 		res = append(res, fc.term(r))
 	}
+	if fc.contract.HasMod {
+		fc.frameObligations(x)
+	}
 	sc := fc.funcScope(fc.env, fc.entryEnv, res)
 	sc.mode = "post"
 	nret := fc.counters["return"]
@@ -882,6 +950,42 @@ func (fc *FnCtx) doReturn(x *ssa.Return) {
 			name += fmt.Sprintf("@return%d", nret)
 		}
 		fc.assert("ensures", name, sc.trBool(e.E), e.Src, x.Pos(), false)
+	}
+}
+
+// frameObligations: every heap variable that is not in the declared frame is
+// unchanged at all references that existed at entry; variables declared
+// fresh(...) likewise.  Writes to objects allocated by the function itself
+// are always allowed.
+func (fc *FnCtx) frameObligations(x *ssa.Return) {
+	declared := newWS()
+	fc.modifiesToWS(fc.contract, declared)
+	if declared.All {
+		return
+	}
+	suffix := ""
+	if fc.countReturns() > 1 {
+		suffix = fmt.Sprintf("@return%d", fc.counters["return"])
+	}
+	if fc.env.epoch != fc.entryEnv.epoch {
+		ob := fc.assert("frame", fmt.Sprintf("%s:frame(unknown-effects)%s", fc.name, suffix), FalseT, "a call with unknown effects (no contract or model) may write outside the declared frame", x.Pos(), false)
+		_ = ob
+		return
+	}
+	allocEntry := fc.lookupIn(fc.entryEnv, "alloc")
+	for _, n := range sortedKeys(fc.svHeap) {
+		if !fc.svHeap[n] || (declared.Names[n] && !declared.Fresh[n]) {
+			continue
+		}
+		if !strings.HasPrefix(string(fc.svSort[n]), "(Array Int ") {
+			continue
+		}
+		now, was := fc.lookup(n), fc.lookupIn(fc.entryEnv, n)
+		if now.S == was.S {
+			continue
+		}
+		fc.assert("frame", fmt.Sprintf("%s:frame(%s)%s", fc.name, n, suffix), T(SBool, "(forall ((a Int)) (=> (<= a %s) (= (select %s a) (select %s a))))", allocEntry.S, now.S, was.S),
+			"memory that existed at entry is unchanged in "+n+" (not in the modifies clause)", x.Pos(), false)
 	}
 }
 
@@ -940,4 +1044,19 @@ func mentions(e Expr, names map[string]bool) bool {
 	}
 	walk(e)
 	return found
+}
+
+// tryTrBool translates a callee clause; a clause that names something not
+// visible at the call site (a local of the callee) is skipped.
+func (fc *FnCtx) tryTrBool(sc *Scope, e Expr) (t Term, ok bool) {
+	defer func() {
+		if r := recover(); r != nil {
+			if te, isTE := r.(transErr); isTE && strings.Contains(string(te), "unknown name") {
+				ok = false
+				return
+			}
+			panic(r)
+		}
+	}()
+	return sc.trBool(e), true
 }
